@@ -50,6 +50,7 @@ type Case struct {
 	Xs        []int64 `json:"xs,omitempty"`
 	N         int     `json:"n,omitempty"`
 	WOps      []WOp   `json:"wops,omitempty"`
+	MOps      []MOp   `json:"mops,omitempty"`
 }
 
 // ---------------------------------------------------------------- arithmetic helpers (oracle side, independent of the model)
@@ -563,6 +564,8 @@ func execCase(run *kit.Run, c Case, verbose bool) {
 		execBitLen(run, c, verbose)
 	case "win":
 		execWin(run, c, verbose)
+	case "multi":
+		execMulti(run, c, verbose)
 	}
 }
 
@@ -984,7 +987,7 @@ func main() {
 	run.Footer = "Definition M := Eval vm_compute in mismatches cases.\nPrint M."
 	run.CaseType = "case"
 	run.ShardSize = 24
-	run.Rule = "hist: (min,max,sigfigs) shape x call script run on the real hdrhist.Histogram. Families: boundary = sigfigs 1..5 x min in {1,2,3,7,8,1000,2^20-1,2^20,2^20+1,2^49-1,..} x max = subBucketCount*2^(unit+k)+{-1,0,1}, recording max, min, max-1, max/2, max/2+1; random = random valid shapes, values at bucket / sub-bucket boundaries, powers of two, min, max, heavy duplicates, quantiles near 0, 50, 99.9, 100 and exact-rank quantiles, Export/Import, Merge into the same and into other shapes, Reset; malformed = invalid shapes, out-of-range values, non-positive counts (correspondence only); bitlen = bitLen on 40 int64 values; win = WindowedHistogram record/rotate/merge scripts. distinct = distinct (shape, script); non-trivial = valid case with at least one accepted record and at least one quantile/Min/Max/Merge answer checked by the oracle (bitlen: always)"
+	run.Rule = "hist: (min,max,sigfigs) shape x call script run on the real hdrhist.Histogram. Families: boundary = sigfigs 1..5 x min in {1,2,3,7,8,1000,2^20-1,2^20,2^20+1,2^49-1,..} x max = subBucketCount*2^(unit+k)+{-1,0,1}, recording max, min, max-1, max/2, max/2+1; random = random valid shapes, values at bucket / sub-bucket boundaries, powers of two, min, max, heavy duplicates, quantiles near 0, 50, 99.9, 100 and exact-rank quantiles, Export/Import, Merge into the same and into other shapes, Reset; malformed = invalid shapes, out-of-range values, non-positive counts (correspondence only); bitlen = bitLen on 40 int64 values; multi = a store of up to 6 live histograms of one shape (source, snapshots taken at arbitrary points, histograms imported from them, fresh merge targets) with RecordValues/Reset/Export/Import/Merge/snapshot-scribbling in any order and TotalCount/ValueAtQuantile/Min/Max of every histogram checked against its own data at the mid-point and at the end; win = WindowedHistogram record/rotate/merge scripts. distinct = distinct (shape, script); non-trivial = valid case with at least one accepted record and at least one quantile/Min/Max/Merge answer checked by the oracle (bitlen: always)"
 
 	if run.Replay != "" {
 		var c Case
@@ -1104,6 +1107,14 @@ func main() {
 	n = run.Pick(60, 2000)
 	for i := 0; i < n; i++ {
 		emit(bitLenCase(run.Rand.Fork()))
+	}
+	// --- several live histograms (export / import / merge, then more calls on any of them)
+	for _, c := range multiCorpus() {
+		emit(c)
+	}
+	n = run.Pick(150, 3000)
+	for i := 0; i < n; i++ {
+		emit(multiCase(run.Rand.Fork()))
 	}
 	// --- windowed histogram
 	n = run.Pick(80, 2000)
